@@ -317,7 +317,7 @@ def Layout.wf (L : Layout) : Bool :=
   L.fields.all Field.sym &&
   (match L.tail with
    | .none => true
-   | .vec elt => elt.all Field.sym && !hasCount elt && hasCount L.fields
+   | .vec elt oddR oddW => elt.all Field.sym && !hasCount elt && hasCount L.fields && oddR == oddW
    | .set _ => hasCount L.fields
    | .strEof wn rraw wraw align => rraw == wraw && (align == 4 || align ≤ 1) && wn % 4 == 0)
 
@@ -327,7 +327,7 @@ def RepBody (CRep : CustomId → List Val → Prop) (L : Layout) (v : PVal) : Pr
   (match L.maxElems with | some m => tailCount v.tail ≤ m | none => True) ∧
   (match L.tail, v.tail with
    | .none, .none => True
-   | .vec elt, .elems es => ∀ e ∈ es, RepFields CRep 0 elt e
+   | .vec elt _ _, .elems es => ∀ e ∈ es, RepFields CRep 0 elt e
    | _, _ => False)
 
 /-- **bodies round-trip** (fixed-size kinds and kinds with a counted vector): decoding the writer's
@@ -369,7 +369,7 @@ theorem decBody_encBody (env : Env) (CRep : CustomId → List Val → Prop) (LW 
         | elems es => rw [hv] at ht; simp at ht
         | set xs => rw [hv] at ht; simp at ht
         | text t => rw [hv] at ht; simp at ht
-      | vec elt =>
+      | vec elt oddR oddW =>
         rw [hL] at ht h2 htail
         cases hv : v.tail with
         | none => rw [hv] at ht; simp at ht
@@ -379,12 +379,17 @@ theorem decBody_encBody (env : Env) (CRep : CustomId → List Val → Prop) (LW 
           rw [hv] at ht h2 hf
           simp only [encTail] at h2
           simp only [Bool.and_eq_true, List.all_eq_true, Bool.not_eq_true'] at htail
-          obtain ⟨⟨hes, _⟩, hcnt⟩ := htail
+          obtain ⟨⟨⟨hes, _⟩, hcnt⟩, _⟩ := htail
           have hc := countOf_rep CRep (tailCount (.elems es)) L.fields v.vals hcnt hf
-          have d2 := decElems_encElems env CRep LW elt hes es b2 [] ht h2
-          simp only [List.append_nil] at d2
-          simp only [decTail, hc, tailCount, Option.getD, d2]
-          cases v; simp_all
+          cases h3 : encElems env elt es with
+          | err e => simp [h3] at h2
+          | panic => simp [h3] at h2
+          | ok b3 =>
+            simp only [h3] at h2
+            injection h2 with h2; subst h2
+            have d2 := decElems_encElems env CRep LW elt hes es b3 (List.replicate (if es.length % 2 = 1 then oddW else 0) 0) ht h3
+            simp only [decTail, hc, tailCount, Option.getD, d2]
+            cases v; simp_all
       | set s => rw [hL] at ht; cases v.tail <;> simp at ht
       | strEof a b c d => rw [hL] at ht; cases v.tail <;> simp at ht
 
